@@ -84,6 +84,11 @@ def check(ctx):
         if not b and v[0] == "comp" and v[1] == "list" and len(v[3]) == 1 and not v[3][0][2] and v[2][0] == "const":
             r = match(("call", ("global", "range"), (V("n"),), ()), v[3][0][1])
             b = {"c": v[2], "n": r["n"]} if r else None
+        if not b:
+            # list(itertools.repeat(c, n))
+            r = match(("call", ("global", "list"), (("call", ("global", "repeat"), (V("c"), V("n")), ()),), ()), v) or \
+                match(("call", ("global", "list"), (("meth", ("global", "itertools"), "repeat", (V("c"), V("n")), ()),), ()), v)
+            b = r or None
         if not b or b["c"][0] != "const":
             ctx.unrec("R1", "rhs-init", where(inits[0]), f"rhs is not created as n copies of a constant: {show(v)[:120]}")
         else:
@@ -418,6 +423,16 @@ def _r6(ctx):
         ctx.saw(f)
         for ci in [c for c in pkg.classes.values() if c.file == f]:
             for mname, fn in ci.methods.items():
+                # the method with the private helpers it was split into put back (a list built by `self._helper(cols)` is
+                # the list the helper's statements build); _create_species stays the primitive the rule is about
+                try:
+                    import copy as _copy
+                    from ..normalize import const_setattr, unroll_static_loops
+                    fn = _copy.deepcopy(pkg.expanded(ci.name, mname, keep=("_create_species",)))
+                    # ... and a table of (attribute name, value) rows written out: `setattr(self, "reactants", v)` is `self.reactants = v`
+                    fn = const_setattr(unroll_static_loops(fn))
+                except (AnalysisError, RecursionError):
+                    pass
                 src = ast.unparse(fn)
                 if "reactants" not in src and "products" not in src:
                     continue
@@ -437,7 +452,7 @@ def _r6(ctx):
     ctx.floor("R6", "reactant/product assignments", n_sites, 13)
     species_truthiness(ctx, "R6")
     # _create_species returns None for pseudo-elements
-    fn = pkg.method("Component", "_create_species")
+    fn = pkg.method("Component", "_create_species") and pkg.expanded("Component", "_create_species")
     ctx.saw("naunet/component.py", "Component._create_species")
     # by paths (any arrangement of the conditions): every path that constructs Species(name) has `name in known_pseudoelements()`
     # false, and on the paths where it is true the function returns None
@@ -465,7 +480,7 @@ def _r6(ctx):
         ctx.check(ok, "R6", "Component._create_species:pseudo-filter", ("naunet/component.py", fn.lineno),
                   "Species(..) is constructed only for names not in Species.known_pseudoelements(); otherwise None is returned")
     # the list consulted is the CONFIGURED pseudo-element list whenever any list was configured
-    kp = pkg.method("Species", "known_pseudoelements")
+    kp = pkg.method("Species", "known_pseudoelements") and pkg.expanded("Species", "known_pseudoelements")
     ctx.saw("naunet/species.py", "Species.known_pseudoelements")
     kfl = Flow(kp, "naunet/species.py")
     CLS = ("param", "cls")
@@ -601,7 +616,8 @@ def _r8(ctx):
     n = 0
     for label, rel, cfg, fname in CONFIGS:
         ctx.saw(rel)
-        items = J.flatten(ctx.tree, rel, cfg)
+        # (`{% set %}` variables and the parameters of expanded macros are read as the expressions they stand for)
+        items = J.propagate_sets(J.flatten(ctx.tree, rel, cfg))
         sk = Skel(items)
         if not sk.func(fname):
             ctx.missing("R8", f"{label}:{fname}", (rel, 0), f"function {fname} not found in the specialised template")
@@ -659,6 +675,9 @@ def _r8(ctx):
         for name, args, kw in fs:
             if name in WS_FILTERS:
                 # break_long_words=False lives in utilities._stmwrap (checked below)
+                continue
+            if name in ("prefix", "suffix") and len(args) == 1 and not kw and args[0][0] == "const" and isinstance(args[0][1], str) and not args[0][1].strip():
+                # naunet's own p + x / x + s filters with blanks / line breaks only: layout around the statement, like template text
                 continue
             if name == "replace" and len(args) == 2 and all(a[0] == "const" for a in args):
                 reps.append((args[0][1], args[1][1]))
@@ -742,6 +761,14 @@ MUTANTS = [
     {"name": "cool-sign", "file": T, "old": 'rhs[n_spec] += f" - {crate_sym}[{cidx}] * {rsym_mul}"', "new": 'rhs[n_spec] += f" + {crate_sym}[{cidx}] * {rsym_mul}"', "rules": ["R7"]},
     {"name": "skip-catalyst", "file": T, "old": "            for specidx in rspecidx:\n                rhs[specidx] += f\" - ", "new": "            for specidx in rspecidx:\n                if specidx in pspecidx:\n                    continue\n                rhs[specidx] += f\" - ", "rules": ["R2"]},
     {"name": "fex-slice", "file": TEMPLATES["cvode"], "old": "    {% for eq in ode.fex -%}\n        {{ eq | stmwrap(80, 8) }}", "new": "    {% for eq in ode.fex[1:] -%}\n        {{ eq | stmwrap(80, 8) }}", "rules": ["R8"]},
+    {"name": "fex-pipeline-sliced", "file": TEMPLATES["cvode"], "old": "    {% for eq in ode.fex -%}\n        {{ eq | stmwrap(80, 8) }}\n    {% endfor %}\n", "new": "    {{ ode.fex[1:] | map(\"stmwrap\", 80, 8) | map(\"suffix\", \"\\n    \") | join }}\n", "rules": ["R8"]},
+    {"name": "fex-pipeline-rewrites-text", "file": TEMPLATES["cvode"], "old": "    {% for eq in ode.fex -%}\n        {{ eq | stmwrap(80, 8) }}\n    {% endfor %}\n", "new": "    {{ ode.fex | map(\"replace\", \" - \", \" + \") | map(\"stmwrap\", 80, 8) | map(\"suffix\", \"\\n    \") | join }}\n", "rules": ["R8"]},
+    {"name": "fex-pipeline-suffix-text", "file": TEMPLATES["cvode"], "old": "    {% for eq in ode.fex -%}\n        {{ eq | stmwrap(80, 8) }}\n    {% endfor %}\n", "new": "    {{ ode.fex | map(\"stmwrap\", 80, 8) | map(\"suffix\", \" + 0.0\\n    \") | join }}\n", "rules": ["R8"]},
+    {"name": "signed-chain-of-rows-signs-swapped", "file": T, "old": '            for specidx in rspecidx:\n                rhs[specidx] += f" - {rate_sym}[{rl}]*{rsym_mul}"\n            for specidx in pspecidx:\n                rhs[specidx] += f" + {rate_sym}[{rl}]*{rsym_mul}"\n', "new": '            import itertools\n            for sign, specidx in itertools.chain(zip(itertools.repeat(" + "), rspecidx), zip(itertools.repeat(" - "), pspecidx)):\n                rhs[specidx] += sign + f"{rate_sym}[{rl}]*{rsym_mul}"\n', "rules": ["R2", "R3"]},
+    {"name": "reactants-setattr-table-unfiltered", "file": 'naunet/reactions/reaction.py', "old": '        self.reactants = [\n            self._create_species(r.strip())\n            for r in rps[0:3]\n            if self._create_species(r.strip())\n        ]\n', "new": '        for attr, cols in (("reactants", rps[0:3]),):\n            setattr(self, attr, [self._create_species(r.strip()) for r in cols])\n', "rules": ["R6"]},
+    {"name": "fex-pasted-by-macro-sliced", "edits": [
+        {"file": TEMPLATES["cvode"], "old": "#include <math.h>\n", "new": '{% macro paste(eqs, width, indent) %}{% for line in eqs[:-1] -%}\n        {{ line | stmwrap(width, indent) }}\n    {% endfor %}{% endmacro %}\n#include <math.h>\n', "count": 1},
+        {"file": TEMPLATES["cvode"], "old": "    {% for eq in ode.fex -%}\n        {{ eq | stmwrap(80, 8) }}\n    {% endfor %}\n", "new": "    {{ paste(ode.fex, 80, 8) }}\n"}], "rules": ["R8"]},
     {"name": "kernel-replace-swapped", "file": TEMPLATES["cvode"], "old": 'replace("y[IDX", "y_cur[IDX") | stmwrap(80, 12)', "new": 'replace("y_cur[IDX", "y[IDX") | stmwrap(80, 12)', "rules": ["R8"]},
     {"name": "stmwrap-breaks-words", "file": "naunet/utilities.py", "old": "break_long_words=False", "new": "break_long_words=True", "rules": ["R8"]},
     {"name": "textwrapper-breaks-words", "file": "naunet/utilities.py", "old": "wrappedlist = wrap(text, width - indent, break_long_words=False)", "new": "import textwrap\n    wrappedlist = textwrap.TextWrapper(width=width - indent).wrap(text)", "rules": ["R8"]},
@@ -786,5 +813,16 @@ BENIGN = [
     {"name": "n-eqns-int-flag", "file": T, "old": "n_eqns = max(n_spec + has_thermal, 1)", "new": "n_eqns = max(1, n_spec + int(has_thermal))"},
     {"name": "numdens-braced-loop", "file": 'naunet/templates/base/cpp/src/naunet_physics.cpp.j2', "old": '    double numdens = 0.0;\n\n    for (int i = 0; i < NSPECIES; i++) numdens += y[i];\n    return numdens;\n', "new": '    double total = 0.;\n    for (int k = 0; k < NSPECIES; ++k) {\n        total = total + y[k];\n    }\n    return total;\n'},
     {"name": "reaction-loop-by-index", "file": T, "old": 'for rl, react in enumerate(tqdm(reactions, desc="Preparing ODE...")):', "new": 'for rl in range(len(reactions)):\n            react = reactions[rl]'},
+    {"name": "fex-map-join-pipeline", "file": TEMPLATES["cvode"], "old": "    {% for eq in ode.fex -%}\n        {{ eq | stmwrap(80, 8) }}\n    {% endfor %}\n", "new": "    {{ ode.fex | map(\"stmwrap\", 80, 8) | map(\"suffix\", \"\\n    \") | join }}\n"},
+    {"name": "signed-chain-of-rows", "file": T, "old": '            for specidx in rspecidx:\n                rhs[specidx] += f" - {rate_sym}[{rl}]*{rsym_mul}"\n            for specidx in pspecidx:\n                rhs[specidx] += f" + {rate_sym}[{rl}]*{rsym_mul}"\n', "new": '            import itertools\n            for sign, specidx in itertools.chain(zip(itertools.repeat(" - "), rspecidx), zip(itertools.repeat(" + "), pspecidx)):\n                rhs[specidx] += sign + f"{rate_sym}[{rl}]*{rsym_mul}"\n'},
+    {"name": "modifier-terms-from-generator", "edits": [
+        {"file": T, "old": '    def _prepare_ode_content(\n', "new": '    def _modifier_terms(self, species, species_kwargs, ode_modifier):\n        for sname, expr in ode_modifier.items():\n            sidx = species.index(Species(sname, **species_kwargs))\n            for fact, dep in zip(expr["factors"], expr["reactants"]):\n                depspec = [Species(d, **species_kwargs) for d in dep]\n                yield sidx, fact, depspec, [f"y[IDX_{d.alias}]" for d in depspec]\n\n    def _prepare_ode_content(\n'},
+        {"file": T, "old": '        for sname, expr in ode_modifier.items():\n            spec = Species(sname, **species_kwargs)\n            sidx = species.index(spec)\n            for fact, dep in zip(expr["factors"], expr["reactants"]):\n                depspec = [Species(d, **species_kwargs) for d in dep]\n                depsym = [f"y[IDX_{d.alias}]" for d in depspec]\n', "new": '        for sidx, fact, depspec, depsym in self._modifier_terms(species, species_kwargs, ode_modifier):\n'}]},
+    {"name": "reactants-setattr-table", "file": 'naunet/reactions/reaction.py', "old": '        self.reactants = [\n            self._create_species(r.strip())\n            for r in rps[0:3]\n            if self._create_species(r.strip())\n        ]\n', "new": '        for attr, cols in (("reactants", rps[0:3]),):\n            setattr(self, attr, [self._create_species(r.strip()) for r in cols if self._create_species(r.strip())])\n'},
+    {"name": "rhs-init-repeat", "file": T, "old": '        rhs = ["0.0"] * n_eqns\n', "new": '        import itertools\n        rhs = list(itertools.repeat("0.0", n_eqns))\n'},
+    {"name": "abundance-symbols-percent-format", "file": T, "old": 'y = [f"y[IDX_{x.alias}]" for x in species]', "new": 'y = ["y[IDX_%s]" % x.alias for x in species]'},
+    {"name": "fex-pasted-by-macro", "edits": [
+        {"file": TEMPLATES["cvode"], "old": "#include <math.h>\n", "new": '{% macro paste(eqs, width, indent) %}{% for line in eqs -%}\n        {{ line | stmwrap(width, indent) }}\n    {% endfor %}{% endmacro %}\n#include <math.h>\n', "count": 1},
+        {"file": TEMPLATES["cvode"], "old": "    {% for eq in ode.fex -%}\n        {{ eq | stmwrap(80, 8) }}\n    {% endfor %}\n", "new": "    {{ paste(ode.fex, 80, 8) }}\n"}]},
     {"name": "template-reindent", "file": TEMPLATES["cvode"], "old": "    {% for eq in ode.fex -%}\n        {{ eq | stmwrap(80, 8) }}", "new": "    {% for eq in ode.fex -%}\n      {{ eq|stmwrap(80, 6) }}"},
 ]
